@@ -78,4 +78,13 @@ func init() {
 	add("c06-nilres-tryfieldformat", "C06.nilres", dd,
 		"\tif dv == nil || dv.Errors() != nil {\n\t\treturn nil, nil, err\n\t}\n\n\td.AddChild(dv)\n\tif _, err := d.bitBuf.SeekBits(dv.Range.Len, io.SeekCurrent); err != nil {",
 		"\tif dv != nil && dv.Errors() != nil {\n\t\treturn nil, nil, err\n\t}\n\n\td.AddChild(dv)\n\tif _, err := d.bitBuf.SeekBits(dv.Range.Len, io.SeekCurrent); err != nil {", "TryFieldFormat")
+	// C06.usub
+	add("c06-usub-flac-if-form", "C06.usub", "format/flac/flac.go",
+		"\t\t\tif streamTotalSamples > 0 {\n\t\t\t\tsamplesInFrame = min(streamTotalSamples-streamDecodedSamples, ffo.Samples)\n\t\t\t}",
+		"\t\t\tif streamTotalSamples > 0 && streamDecodedSamples+ffo.Samples > streamTotalSamples {\n\t\t\t\tsamplesInFrame = streamTotalSamples - streamDecodedSamples\n\t\t\t}", "flacDecode")
+	add("c06-usub-mp3-version-map", "C06.usub", "format/mpeg/mp3_frame.go", "\tmpegVersion25: 3,\n\tmpegVersion2:  2,", "\tmpegVersion25: 0,\n\tmpegVersion2:  2,", "no longer holds")
+	// C06.rdslice
+	add("c06-rdslice-midi-peek", "C06.rdslice", "format/midi/midi.go", "\t\t\t\t\t// ... meta-event\n\t\t\t\t\tif ix < n {", "\t\t\t\t\t// ... meta-event\n\t\t\t\t\tif ix <= n {", "peekEvent")
+	add("c06-rdslice-caff-loop", "C06.rdslice", "format/caff/caff.go", "\t\tfor i := uint64(0); i < length; i++ {\n\t\t\traw[i] ^= byte(obfsKey)", "\t\tfor i := uint64(0); i <= length; i++ {\n\t\t\traw[i] ^= byte(obfsKey)", "decodeCAFF")
+	add("c06-rdslice-aiff-pstring", "C06.rdslice", "format/riff/aiff.go", "\treturn s[0:min(int(l), len(s))]", "\treturn s[0 : l+1-pad]", "aiffPString")
 }
